@@ -8,7 +8,7 @@
    [iterator f s] is the model of Node.iterator (mirrors Node._iter_pre).
    A limit k = 0 stands for max_results None / 0 (no limit). *)
 From Coq Require Import List ZArith Bool Arith Permutation.
-From NT Require Import Sx Rose Search SearchProofs CaseC09.
+From NT Require Import Sx Rose Search SearchProofs SearchOrder CaseC09.
 Import ListNotations.
 
 (* ---- pattern and predicate searches ------------------------------------ *)
@@ -59,6 +59,56 @@ Theorem C09_find_all_exact_ordered_limited :
   (1 <= k -> r = firstn k (filter p all) /\ length r <= k /\ length r = Nat.min k (length (filter p all))).
 Proof. exact node_find_all_match_props. Qed.
 Print Assumptions C09_find_all_exact_ordered_limited.
+
+(* ---- "in pre-order", independently of the recursion ------------------------ *)
+(* [before l x y]: x occurs strictly before y in l.  [desc_of x y]: y is a proper
+   descendant of x.  [left_of f x y]: somewhere in the forest two siblings a
+   (earlier) and b (later) have x in a's branch and y in b's branch.
+   The pre-order list of a forest with unique node identities orders two
+   different nodes exactly by: ancestors first, then left to right. *)
+Theorem C09_preorder_is_document_order : forall (f : forest) (x y : rt),
+  NoDup (ids f) -> In x (pre_f f) -> In y (pre_f f) -> x <> y ->
+  (before (pre_f f) x y <-> desc_of x y \/ left_of f x y).
+Proof. exact pre_f_is_document_order. Qed.
+Print Assumptions C09_preorder_is_document_order.
+
+(* ... and so does every search answer, from every start node of the forest,
+   with or without self, for every limit *)
+Theorem C09_find_all_in_document_order :
+  forall (f : forest) (s : start) (ms : matchspec) (add_self : bool) (k : nat) (r : list rt),
+  NoDup (ids f) -> start_in f s ->
+  node_find_all (iterator f s) None (Some ms) None add_self k = Ok r ->
+  forall x y, In x r -> In y r -> x <> y -> (before r x y <-> desc_of x y \/ left_of f x y).
+Proof. exact find_all_document_order. Qed.
+Print Assumptions C09_find_all_in_document_order.
+
+Theorem C09_find_all_by_id_in_document_order :
+  forall (f : forest) (s : start) (data data_id : option did) (d : did) (add_self : bool) (k : nat) (r : list rt),
+  NoDup (ids f) -> start_in f s -> merge_data data data_id = Ok (Some d) ->
+  node_find_all (iterator f s) data None data_id add_self k = Ok r ->
+  forall x y, In x r -> In y r -> x <> y -> (before r x y <-> desc_of x y \/ left_of f x y).
+Proof. exact find_all_by_id_document_order. Qed.
+Print Assumptions C09_find_all_by_id_in_document_order.
+
+(* the two structural relations are inhabited and distinguish the two orders of a pair *)
+Example C09_document_order_nonvacuous :
+  let i (o : Z) := I o o o true [o] (DInt o) None [] in
+  let c := T 3 (i 3%Z) [] in
+  let a := T 2 (i 2%Z) [c] in
+  let b := T 4 (i 4%Z) [] in
+  let f := [T 1 (i 1%Z) [a; b]] in
+  NoDup (ids f) /\ desc_of a c /\ left_of f c b /\ before (pre_f f) c b /\ ~ before (pre_f f) b c.
+Proof.
+  cbv zeta. split; [vm_compute; repeat constructor; cbn; intuition discriminate|].
+  split; [left; reflexivity|].
+  assert (L : left_of [T 1 (I 1 1 1 true [1%Z] (DInt 1) None []) [T 2 (I 2 2 2 true [2%Z] (DInt 2) None []) [T 3 (I 3 3 3 true [3%Z] (DInt 3) None []) []]; T 4 (I 4 4 4 true [4%Z] (DInt 4) None []) []]]
+                      (T 3 (I 3 3 3 true [3%Z] (DInt 3) None []) []) (T 4 (I 4 4 4 true [4%Z] (DInt 4) None []) [])).
+  { eapply left_deep; [left; reflexivity|]. cbn [rch].
+    apply (left_here [] _ [] _ []); [right; left; reflexivity|left; reflexivity]. }
+  split; [exact L|].
+  pose proof (left_before _ _ _ L) as B. split; [exact B|].
+  intros B'. refine (before_asym _ _ _ _ B B'). apply NoDup_pre_f. vm_compute. repeat constructor; cbn; intuition discriminate.
+Qed.
 
 (* searches on the tree object *)
 Theorem C09_tree_find_all_match : forall (st : tstate) (ms : matchspec) (k : nat),
